@@ -17,8 +17,9 @@
 (*               `defer erc.Recover(ec)` in Run; FALSE = code as it is: a panic *)
 (*               of the base run leaves Run without a return value.             *)
 (*   StaleInit   TRUE = code as it is (go.mod < 1.23): time.NewTimer(0) has     *)
-(*               fired and its tick is never drained; FALSE = proposed          *)
-(*               fixes/srv-daemon-drain-initial-tick.diff.                      *)
+(*               fired and its tick is never drained; FALSE = the documented    *)
+(*               pacing (`<-timer.C` after NewTimer; not proposed as a patch:   *)
+(*               srv's own TestDaemon/CloseTriggers relies on the stale tick).  *)
 (***************************************************************************)
 EXTENDS Integers, FiniteSets, TLC
 
